@@ -1,0 +1,14 @@
+//go:build verif
+
+// Contracts for this package, checked by /verif/bin/govc (comment-only file).
+package cjk
+
+//@ fileprops C18
+
+// Totality sweep: every function of the package is checked for index / slice-bounds /
+// nil / division / conversion panics on ALL inputs; loop invariants for index bounds are inferred.
+//@ sweep nopanic nonil infer
+
+//@ func combine
+//@   nopanic nonil
+//@   requires 1 <= pos && pos <= len(text)
